@@ -1,7 +1,7 @@
 """Per-property check pipelines. Each function receives a vlib.Check, runs the
 TLC model(s) of the property and the conformance binding, and records
 mismatches through ck.mismatch()."""
-import json, os, random, hashlib, glob
+import json, os, random, hashlib, glob, re
 import vlib
 from vlib import tlc, gbv, rundir, ToolError
 
@@ -163,6 +163,13 @@ def c14(ck):
     ck.add_tlc("MC_Lcd", mc)
     ck.require_coverage(mc, ["DoAdvance", "DoWriteSTAT", "DoWriteLYC"])
     ck.add_tlc("Thm_Lcd", thm, mc=False)
+    if thorough:
+        # for every position, event position and batch lengths up to 2^24 clocks (TLC's Thm_Lcd enumerates a grid)
+        ck.extra["apalache_lcd_additivity"] = {
+            "passed_additive": vlib.apalache("ApaLcd.tla", ["--init=Init", "--inv=PassedAdditive", "--length=0"]),
+            "passed_once_per_frame": vlib.apalache("ApaLcd.tla", ["--init=Init", "--inv=PassedOncePerFrame", "--length=0"])}
+        if "Error" in ck.extra["apalache_lcd_additivity"].values():
+            raise ToolError("Apalache refutes the LCD schedule's additivity: %s" % ck.extra["apalache_lcd_additivity"])
     scale = 20 if thorough else 1
     for name, n in [("random", 40000 * scale), ("frames", 60000 * scale)]:
         path = os.path.join(rundir(), "lcd_%s.ndjson" % name)
@@ -191,6 +198,11 @@ def c16(ck):
     mc = tlc("MC_Dma", workers=6, coverage=True, timeout=1800)
     ck.add_tlc("MC_Dma", mc)
     ck.require_coverage(mc, ["DoStart", "DoAdvance", "DoModify"])
+    if thorough:
+        # progress is additive and the transfer is over after exactly 160 machine cycles, for every offset and split
+        ck.extra["apalache_dma_progress"] = vlib.apalache("ApaDma.tla", ["--init=Init", "--inv=ProgressAdditive", "--length=0"])
+        if ck.extra["apalache_dma_progress"] == "Error":
+            raise ToolError("Apalache refutes the DMA's additive progress")
     n = 400000 if thorough else 24000
     path = os.path.join(rundir(), "dma.ndjson")
     cnt, _ = run_to_file(["dma-trace", "--events", n], path)
@@ -535,6 +547,21 @@ def c11(ck):
     for r in recs:
         if r.get("kind") == "crash":
             ck.mismatch(dict(r, ram_bytes_class=("none" if r["mc"] in (0,) else "some")), "crash-t%d-rc%d-mc%d" % (r["t"], r["rc"], r["mc"]))
+    # guest-controlled values reach the devices as well (timer, LCD, DMA and joypad registers at every device phase):
+    # the device recorders of C13/C14/C16/C17 and bus histories with device time, run here for completion only
+    # (what they record is validated under those properties; a panic or an abort while recording is C11's)
+    import subprocess
+    exe = vlib.build_harness()
+    nev = 200000 if thorough else 20000
+    for args in (["timer-trace", "--mode", "sweep", "--events", nev], ["timer-trace", "--mode", "random", "--events", nev],
+                 ["lcd-trace", "--mode", "random", "--events", nev], ["dma-trace", "--events", nev // 10], ["joypad-trace", "--events", nev],
+                 ["bus-trace", "--events", nev, "--out", os.path.join(rundir(), "c11_bustr.ndjson")]):
+        p = subprocess.run([exe] + [str(a) for a in args], stdout=subprocess.DEVNULL, stderr=subprocess.PIPE, cwd=vlib.VERIF, timeout=3600,
+                           env=dict(os.environ, VERIF_SEED=str(vlib.seed() + 11)))
+        ck.count(nev)
+        if p.returncode != 0:
+            ck.mismatch({"kind": "device-history-did-not-complete", "cmd": ["gbv"] + [str(a) for a in args], "rc": p.returncode,
+                         "stderr": p.stderr.decode(errors="replace")[-600:]}, "device-%s" % args[0])
     # word accesses and stack operations at the edges, executed as instructions (both engines share the helpers)
     import gbprog
     rng = random.Random(vlib.seed() + 11)
@@ -923,9 +950,12 @@ def c03(ck):
         h["id"] += 100000
     # three configurations: MBC1 and MBC3 with 8 banks, MBC3 with 64 banks and banks that differ by 32
     # ... and MBC3 with 72 banks (a size that is not a power of two) switching among banks 1, 9 and 2
-    for cart, bankmap in (((1, 2, 0), (1, 2, 3)), ((0x11, 2, 0), (1, 2, 3)), ((0x11, 5, 0), (1, 33, 2)), ((0x11, 0x52, 0), (1, 9, 2))):
-        tag = "mbc%d_%d" % (1 if cart[0] == 1 else 3, cart[1])
-        sel = hists + hists9 if cart in ((1, 2, 0), (0x11, 5, 0)) else [h for h in hists if h["id"] % 3 == 0] + hists9
+    # ... and cartridges on which one of the three bank numbers is a multiple of the bank count (MBC3 with 4 banks: 4; MBC1
+    # with 8 banks: 8), which maps the image's first 16 KiB -- different code again -- at 0x4000
+    for cart, bankmap in (((1, 2, 0), (1, 2, 3)), ((0x11, 2, 0), (1, 2, 3)), ((0x11, 5, 0), (1, 33, 2)), ((0x11, 0x52, 0), (1, 9, 2)),
+                          ((0x11, 1, 0), (1, 4, 2)), ((1, 2, 0), (1, 8, 2))):
+        tag = "mbc%d_%d_%d" % (1 if cart[0] == 1 else 3, cart[1], bankmap[1])
+        sel = hists + hists9 if (cart, bankmap[1]) in (((1, 2, 0), 2), ((0x11, 5, 0), 33)) else [h for h in hists if h["id"] % 3 == 0] + hists9
         scs = [gbprog.cache_history_scenario(h["id"], h["steps"], cart, bankreg=0x2000 if h["id"] % 2 == 0 else 0x3FFF, bankmap=bankmap) for h in sel]
         warm = record_and_validate_machine(ck, scs, "c03w" + tag, jit=True, shards=8, validate=False)
         cold = record_and_validate_machine(ck, scs, "c03c" + tag, jit=True, shards=8, cold=True, validate=False)
@@ -987,6 +1017,7 @@ def c04(ck):
     n = 1500 if thorough else 60
     scs = gbprog.structured_programs(n, rng) + gbprog.structured_programs(n // 3, rng, start_id=2200000, mbc=0x33) \
         + gbprog.structured_programs(n // 3, rng, start_id=2250000, mbc=0x52) \
+        + gbprog.structured_programs(n // 3, rng, start_id=2260000, mbc=0x106) \
         + gbprog.alu_table_programs(rng)
     # the interpreter build steps one instruction per update(), the jit build one block: compare like with like
     # by stepping both block by block (Core::run_code_block; a halted CPU ticks through update())
@@ -1127,7 +1158,7 @@ def c19(ck):
         gbprog.write_load_case_file(path, c)
         # wait for the decisive output (probe marker after the loader's line, or the fallback banner), not for a clock
         def done(b):
-            return (b.startswith(b'Loading "') and b"\nK" in b) or b"No ROM, loading fallback" in b
+            return (b.startswith(b'Loading "') and b'"\nK' in b) or b"No ROM, loading fallback" in b
         outb, rc, timed_out = vlib.run_until([exe, path], done, deadline=30.0)
         os.remove(path)
         return c, outb, rc
@@ -1141,8 +1172,10 @@ def c19(ck):
         accepted = outb.startswith(b'Loading "') and rc != 101
         exp_ok = c["exp"]["ok"]
         fault = rc is not None and rc < 0
-        first = outb.split(b"\n", 1)
-        ran = len(first) == 2 and first[1].startswith(b"K")
+        # the loader's line is  Loading "<title>"  and the title bytes are the file's (they may be line feeds or quotes):
+        # what the program printed is whatever follows the LAST quote + line feed
+        mline = re.match(rb'Loading "(.*)"\n(.*)$', outb, re.S)
+        ran = mline is not None and mline.group(2).startswith(b"K")
         bad = None
         if fault:
             bad = "fault"
